@@ -1,3 +1,4 @@
+import CpModel.Gen.C11Tables
 /-
   C11 — model of the path handling in `cherrypy/lib/static.py` (`staticdir`, `_attempt`,
   `serve_file`) and `cherrypy/lib/sessions.py` (`FileSession._get_file_path` and its callers).
@@ -295,8 +296,8 @@ def containedCheckStrPrefix (normdir normfile : Str) : Bool := startsWith normfi
 
 /-! ### Part 4: sessions.FileSession -/
 
-def sessionPrefix : Str := ['s', 'e', 's', 's', 'i', 'o', 'n', '-']
-def lockSuffix : Str := ['.', 'l', 'o', 'c', 'k']
+-- `sessionPrefix` (SESSION_PREFIX) and `lockSuffix` (LOCK_SUFFIX) come from CpModel/Gen/C11Tables.lean,
+-- regenerated from the live `FileSession` class on every run.
 
 /-- `FileSession.__init__` / `setup`: `storage_path = os.path.abspath(storage_path)`. -/
 def sessionRoot (cwd storage : Str) : Str := abspath cwd storage
